@@ -1,2 +1,274 @@
-def run(ctx, judge, tpl):
-    return
+"""C06, third opinion: C git as the pushing client.
+
+The behaviours TLC enumerates for the spaces GitSolo / GitRace of RecvPackMC.tla are executed
+  (a) by `git push` to C git's own receive-pack (a bare repository reached by path).  This validates
+      the *specification*: git is the reference for the design with all three repairs, so the
+      statuses git prints and the refs it leaves must be a behaviour of RecvPack with the repaired
+      parameters.  A mismatch is a defect of the specification (machinery failure), never a verdict
+      about dulwich;
+  (b) by `git push` over a loopback TCP connection to a dulwich TCPGitServer serving a real
+      repository.  What git prints (--porcelain) is what "the client was told"; the trace goes to
+      the TLC monitor like every other execution, and is compared with the behaviours of RecvPack
+      under the design parameters of the code under test.
+The racing pusher is a pre-receive hook (a hook object for dulwich, a shell script for git) that
+performs pusher 2's ref update between the advertisement and the processing of the commands.
+"""
+from __future__ import annotations
+
+import os
+import shutil
+import subprocess
+import threading
+
+from . import c06_lib as L
+from .core import MachineryError
+
+GIT_ENV = {"GIT_CONFIG_NOSYSTEM": "1", "GIT_CONFIG_GLOBAL": "/dev/null", "HOME": "/nonexistent", "GIT_TERMINAL_PROMPT": "0",
+           "PATH": os.environ.get("PATH", "/usr/bin:/bin"), "LC_ALL": "C"}
+
+
+def git(args, cwd=None, check=True, env=None):
+    e = dict(GIT_ENV)
+    if env:
+        e.update(env)
+    p = subprocess.run(["git", *args], cwd=cwd, env=e, capture_output=True, timeout=60)
+    if check and p.returncode != 0:
+        raise MachineryError(f"git {' '.join(args)} failed: {p.stderr.decode(errors='replace')[:500]}")
+    return p
+
+
+class RacerHook:
+    """pre-receive hook object: another pusher's ref update lands now."""
+
+    def __init__(self, rec, repo, cmd):
+        self.rec, self.repo, self.cmd = rec, repo, cmd
+        self.result = None
+
+    def execute(self, client_refs):
+        fx = L.fixture()
+        c = self.cmd
+        name = L.REFNAMES[c["r"] - 1]
+        saved = self.rec.cur
+        self.rec.cur = 2
+        try:
+            if c["new"] == 0:
+                self.result = self.repo.refs.remove_if_equals(name, fx.sha[c["old"]])
+            else:
+                self.result = self.repo.refs.set_if_equals(name, fx.sha[c["old"]], fx.sha[c["new"]])
+        finally:
+            self.rec.cur = saved
+        self.rec.log({"p": 2, "op": "done", "unp": "ok", "st": ["ok" if self.result else "ng"], "err": "", "rest": 0,
+                      "refs": self.rec.refs_now(), "store": self.rec.store_now()})
+        return (b"", b"")
+
+
+class OneRepoBackend:
+    def __init__(self):
+        self.repo = None
+
+    def open_repository(self, path):
+        return self.repo
+
+
+class Servers:
+    def __init__(self, ctx, tpl):
+        from dulwich.repo import Repo
+        from dulwich.server import TCPGitServer
+        self.ctx, self.tpl = ctx, tpl
+        self.base = ctx.tmpdir("git")
+        fx = L.fixture()
+        # client side: a bare C git repository holding every fixture object
+        self.cli = os.path.join(self.base, "client.git")
+        git(["init", "-q", "--bare", self.cli])
+        r = Repo(self.cli)
+        for i in fx.objs:
+            for o in fx.objs[i]:
+                r.object_store.add_object(o)
+        r.close()
+        self.backend = OneRepoBackend()
+        self.srv = TCPGitServer(self.backend, "127.0.0.1", 0)
+        self.errors = []
+        self.srv.handle_error = lambda request, client_address: self.errors.append(repr(__import__("sys").exc_info()[1]))
+        self.port = self.srv.server_address[1]
+        self.thread = threading.Thread(target=self.srv.serve_forever, kwargs={"poll_interval": 0.05}, daemon=True)
+        self.thread.start()
+        self.n = 0
+
+    def close(self):
+        self.srv.shutdown()
+        self.srv.server_close()
+        self.thread.join(5)
+        shutil.rmtree(self.base, ignore_errors=True)
+
+    # ---------------------------------------------------------------- git push and its report
+    def push(self, url, desc):
+        fx = L.fixture()
+        specs = []
+        for c in desc["cmds"]:
+            name = os.fsdecode(L.REFNAMES[c["r"] - 1])
+            specs.append((":" + name) if c["new"] == 0 else (fx.sha[c["new"]].decode() + ":" + name))
+        args = ["push", "--porcelain", "--force"] + (["--atomic"] if "atomic" in desc["caps"] else []) + [url] + specs
+        p = git(args, cwd=self.cli, check=False)
+        st = {}
+        for line in p.stdout.decode(errors="replace").splitlines():
+            parts = line.split("\t")
+            if len(parts) >= 3 and len(parts[0]) == 1 and ":" in parts[1]:
+                to = parts[1].split(":", 1)[1]
+                st[to] = "ng" if parts[0] == "!" else "ok"
+        out = [st.get(os.fsdecode(L.REFNAMES[c["r"] - 1]), "-") for c in desc["cmds"]]
+        err = p.stderr.decode(errors="replace")
+        unp = "fail" if ("unpack" in err and "fail" in err) or "unpacker error" in p.stdout.decode(errors="replace") else "ok"
+        return out, unp, p.returncode, (p.stdout.decode(errors="replace") + err)[-600:]
+
+    # ---------------------------------------------------------------- (b) dulwich TCP server
+    def run_dulwich(self, case):
+        from dulwich.repo import Repo
+        L.install()
+        descs = case["push"]
+        root = self.tpl.fresh(case["refs0"], case["store0"], case.get("layout", "loose"))
+        rec = L.Rec(root, len(case["refs0"]))
+        for p, d in enumerate(descs, 1):
+            rec.descs[p] = d
+        rec.cur = 1
+        L._ACTIVE[rec.root] = rec
+        repo = Repo(root)
+        try:
+            if descs[0]["decl"]:
+                repo.hooks["update"] = L.DeclineUpdate(L.REFNAMES[r - 1] for r in descs[0]["decl"])
+            if len(descs) > 1:
+                repo.hooks["pre-receive"] = RacerHook(rec, repo, descs[1]["cmds"][0])
+            self.backend.repo = repo
+            st, unp, rc, text = self.push(f"git://127.0.0.1:{self.port}/x", descs[0])
+            rec.log({"p": 1, "op": "done", "unp": unp, "st": st, "err": "" if rc == 0 else f"rc={rc}", "rest": 0,
+                     "refs": rec.refs_now(), "store": rec.store_now()})
+        finally:
+            self.backend.repo = None
+            repo.close()
+            L._ACTIVE.pop(rec.root, None)
+            shutil.rmtree(root, ignore_errors=True)
+        return {"refs0": list(case["refs0"]), "store0": sorted(case["store0"]), "push": descs, "ev": rec.ev, "via": "git",
+                "layout": case.get("layout", "loose"), "git_output": text}
+
+    # ---------------------------------------------------------------- (a) C git's own receive-pack
+    def run_cgit(self, case):
+        fx = L.fixture()
+        self.n += 1
+        root = os.path.join(self.base, f"cg{self.n}.git")
+        git(["init", "-q", "--bare", root])
+        from dulwich.repo import Repo
+        r = Repo(root)
+        for i in case["store0"]:
+            for o in fx.objs[i]:
+                r.object_store.add_object(o)
+        r.close()
+        for idx, v in enumerate(case["refs0"]):
+            if v:
+                git(["update-ref", os.fsdecode(L.REFNAMES[idx]), fx.sha[v].decode()], cwd=root)
+        descs = case["push"]
+        hooks = os.path.join(root, "hooks")
+        os.makedirs(hooks, exist_ok=True)
+        if descs[0]["decl"]:
+            names = "|".join(os.fsdecode(L.REFNAMES[r - 1]) for r in descs[0]["decl"])
+            with open(os.path.join(hooks, "update"), "w") as f:
+                f.write(f"#!/bin/sh\ncase \"$1\" in {names}) echo declined >&2; exit 1;; esac\nexit 0\n")
+            os.chmod(os.path.join(hooks, "update"), 0o755)
+        if len(descs) > 1:
+            c = descs[1]["cmds"][0]
+            name = os.fsdecode(L.REFNAMES[c["r"] - 1])
+            if c["new"] == 0:
+                cmd = f"git update-ref -d {name} {fx.sha[c['old']].decode()}"
+            else:
+                cmd = f"git update-ref {name} {fx.sha[c['new']].decode()} {fx.sha[c['old']].decode()}"
+            with open(os.path.join(hooks, "pre-receive"), "w") as f:
+                f.write(f"#!/bin/sh\ncat >/dev/null\nunset GIT_QUARANTINE_PATH GIT_OBJECT_DIRECTORY GIT_ALTERNATE_OBJECT_DIRECTORIES\n{cmd} || exit 1\nexit 0\n")
+            os.chmod(os.path.join(hooks, "pre-receive"), 0o755)
+        st, unp, rc, text = self.push(root, descs[0])
+        refs = [fx.v(L.read_ref_file(root, L.REFNAMES[i])) for i in range(len(case["refs0"]))]
+        store = L.Rec(root, len(case["refs0"])).store_now()
+        shutil.rmtree(root, ignore_errors=True)
+        return st, unp, refs, store, text
+
+
+def p2_first(beh):
+    """Pusher 2 (if any) completed before pusher 1 started."""
+    seen1 = False
+    for h in beh["hist"]:
+        if h["p"] == 1:
+            seen1 = True
+        elif seen1:
+            return False
+    return True
+
+
+def outcome_model(beh):
+    d = beh["push"][0]
+    return (beh["unp"][0], tuple(beh["st"][0]), tuple(beh["refs"]))
+
+
+def run(ctx, judge, tpl, behs_ref, behs_code):
+    """behs_ref: behaviours of GitSolo+GitRace under the repaired parameters (git is the reference);
+    behs_code: the same spaces under the parameters of the code under test."""
+    if shutil.which("git") is None:
+        ctx.assumptions.append("C git not available: third-opinion runs skipped")
+        return
+    import json
+    ref = {}
+    for b in behs_ref:
+        if p2_first(b):
+            ref.setdefault(L_case_key(b), set()).add(outcome_model(b))
+    code = {}
+    cases = {}
+    for b in behs_code:
+        if p2_first(b):
+            k = L_case_key(b)
+            cases[k] = L.case_of_behaviour(b)
+            code.setdefault(k, set()).add((outcome_model(b), L.project_model(b)[0]))
+    keys = sorted(cases)
+    if ctx.quick:
+        step = max(1, len(keys) // 36)
+        keys = keys[ctx.seed % step::step]
+    S = Servers(ctx, tpl)
+    ngit = nd = 0
+    try:
+        for k in keys:
+            case = cases[k]
+            # (a) the specification against C git
+            st, unp, refs, store, text = S.run_cgit(case)
+            got = (unp, tuple(st), tuple(refs))
+            ngit += 1
+            if got not in ref.get(k, set()):
+                raise MachineryError(f"specification disagrees with C git (spec defect, not a verdict on dulwich): case={k} "
+                                     f"git={got} spec={sorted(ref.get(k, set()))} output={text!r}")
+            # (b) dulwich behind the same client
+            tr = S.run_dulwich(case)
+            nd += 1
+            tr["label"] = "git-tcp"
+            judge.add("git-tcp", tr)
+            ctx.count()
+            done = [e for e in tr["ev"] if e["op"] == "done" and e["p"] == 1][-1]
+            ops = tuple((e["p"], e["i"], e["pre"], e["post"]) for e in tr["ev"] if e["op"] == "refop")
+            got = ((done["unp"], tuple(done["st"]), tuple(done["refs"])), ops)
+            ctx.nontrivial(("git-tcp", k, got))
+            if got not in code.get(k, set()):
+                ctx.drift_event(f"git-tcp: dulwich behind C git behaves in a way RecvPack does not allow: case={k} real={got} "
+                                f"spec={sorted(code.get(k, set()), key=repr)[:3]} git said {tr['git_output']!r}")
+        if S.errors:
+            ctx.drift_event(f"git-tcp: the TCP server's handler raised: {S.errors[:3]}")
+    finally:
+        S.close()
+    ctx.sample({"kind": "git-tcp", "case": json.loads(keys[len(keys) // 2]), "events": tr["ev"][-3:]}, limit=8)
+    ctx.log(f"C git: {ngit} pushes to git's own receive-pack agree with the repaired specification; {nd} pushes to a dulwich TCP server recorded")
+
+
+def L_case_key(beh):
+    import json
+    case = L.case_of_behaviour(beh)
+    return json.dumps([case["refs0"], case["store0"], case["push"]], sort_keys=True, separators=(",", ":"))
+
+
+def rerun(ctx, tpl, tr0):
+    S = Servers(ctx, tpl)
+    try:
+        return S.run_dulwich({"refs0": tr0["refs0"], "store0": tr0["store0"], "push": tr0["push"], "layout": tr0.get("layout", "loose")})
+    finally:
+        S.close()
